@@ -86,6 +86,8 @@ def execute(acc, case):
                     def consumer():
                         consumer_state["started"] = True
                         consumer_state["returned"] = ("value", node.get_message())
+                    if case.get("park") is not None:
+                        s.parks.append({"task": "consumer", "nth": case["park"], "release": lambda: sc.state() == "Closed", "timeout": 2.0})
                     sc.sched.spawn("consumer", consumer)
                     s.run_until(lambda: False, 0.01, "consumer-blocks")
                 if point == "submitter-active":
@@ -254,6 +256,10 @@ def main(tier, seed):
         for nth in range(0, 60 if q else 140):
             for role in (("client", "server")[nth % 2],) if q else ("client", "server"):
                 cases.append({"seed": seed * 7919 + len(cases), "cause": cause, "point": "submitter-active", "role": role, "strategy": "rw",
+                              "p": 0.02, "transport": "TCP", "dpr_cause": nth % 3 if cause == "peer-dpr" else 0, "park": nth})
+        for nth in range(0, 14):       # get_message() up to its wait is a dozen lines
+            for role in ("client", "server"):
+                cases.append({"seed": seed * 7919 + len(cases), "cause": cause, "point": "consumer-blocked", "role": role, "strategy": "rw",
                               "p": 0.02, "transport": "TCP", "dpr_cause": nth % 3 if cause == "peer-dpr" else 0, "park": nth})
     rng.shuffle(cases)
     nb = 16 if q else 64
